@@ -40,6 +40,20 @@ def matches(entry, sig):
     m = entry.get("match")
     if not m:
         return False
+    if "cfg_bitmaps" in m:
+        # specific inputs: configuration key -> hex bitmap of the presence patterns known to fail; a run matches when
+        # its failing patterns for that configuration are a subset of the known ones
+        known = m["cfg_bitmaps"].get(sig.get("cfgkey"))
+        if known is None:
+            return False
+        got = sig.get("bitmap")
+        if known == "*":
+            return True
+        if got is None:
+            return False
+        if int(got, 16) & ~int(known, 16):
+            return False
+        m = {k: v for k, v in m.items() if k != "cfg_bitmaps"}
     for k, want in m.items():
         if k not in sig or not _ok(want, sig[k]):
             return False
